@@ -145,7 +145,10 @@ def goal_tail(module, beh):
         tail += [{"a": "BeginBlock", "dt": 2000}] + cancels + [{"a": "EndBlock"}, {"a": "Commit"}]
     elif module.startswith("MC_Reg"):
         recs = [{"a": "DeliverTx", "fee": {"nund": 1}, "msgs": [{"t": "BRec", "owner": "A1", "id": 1, "hash": "y", "subt": 9}]}]
-        tail += [{"a": "BeginBlock", "dt": 1000}] + recs + [{"a": "EndBlock"}, {"a": "Commit"}] + EMPTY_BLOCK
+        regs = [{"a": "DeliverTx", "fee": {"nund": 4}, "msgs": [{"t": "BReg", "owner": "A2", "moniker": "m2", "name": "n2"}]},
+                {"a": "DeliverTx", "fee": {"nund": 4}, "msgs": [{"t": "WReg", "owner": "A2", "moniker": "m2", "name": "n2", "genesis": "g", "type": "t"}]}]
+        tail += [{"a": "BeginBlock", "dt": 1000}] + recs + [{"a": "EndBlock"}, {"a": "Commit"}]
+        tail += [{"a": "BeginBlock", "dt": 1000}] + regs + recs + [{"a": "EndBlock"}, {"a": "Commit"}]
     else:
         tail += EMPTY_BLOCK * 3
     return beh + tail
